@@ -479,7 +479,9 @@ class ProgGen:
                 else:
                     self.emit(depth, f"mon.write({n})")
             elif t == "list" and self.list_len.get(n, 0) > 0:
-                self.emit(depth, f"mon.write({n}[0])")
+                size = self.list_len[n]
+                for idx in sorted({0, 1, size - 1} & set(range(size))):
+                    self.emit(depth, f"mon.write({n}[{idx}])")
                 self.emit(depth, f"mon.write({n}[-1])")
 
     def scalar_types(self) -> List[str]:
@@ -586,8 +588,9 @@ class ProgGen:
                 body = r.choice(["i", "i * 2", "i + 1", "(i * i) % 7"])
                 self.emit(depth, f"{name} = [{body} for i in range({n})]")
             elif elem == "int" and self.chance(0.4):
-                n = r.choice([1, 1, 2, 3])
-                values = [r.randint(0, 40) for _ in range(n)]
+                n = r.choice([1, 1, 2, 3, 4, 4])
+                pool = [r.randint(0, 40) for _ in range(r.choice([1, 2, n]))]
+                values = [r.choice(pool) for _ in range(n)]
                 self.emit(depth, f"{name} = [{', '.join(str(v) for v in values)}]")
                 self.literal_items[name] = values
             else:
@@ -916,6 +919,13 @@ class ProgGen:
         nparams = r.randint(0, 3)
         params = [(self.fresh("a"), r.choice(["int", "int", "float", "bool", "str"] if self.opts.use_floats else ["int", "bool"]))
                   for _ in range(nparams)]
+        # a parameter may legally shadow a top-level name of the same type
+        shadowed = []
+        for i, (pn, pt) in enumerate(params):
+            cands = sorted(n for n, t in genv.items() if t == pt and n not in [q for q, _t in params] and n not in shadowed)
+            if cands and self.chance(0.3):
+                params[i] = (r.choice(cands), pt)
+                shadowed.append(params[i][0])
         ret = r.choice(["int", "int", "float", "bool", "str", "void"] if self.opts.use_floats else ["int", "bool", "void"])
         if not self.opts.use_strings:
             params = [(n, "int" if t == "str" else t) for n, t in params]
@@ -930,13 +940,16 @@ class ProgGen:
         # helpers only read globals; writes need `global`
         writable = None
         if not pure and self.chance(0.4):
-            cands = sorted(n for n, t in genv.items() if t == "int")
+            cands = sorted(n for n, t in genv.items() if t == "int" and n not in [q for q, _t in params])
             if cands:
                 writable = r.choice(cands)
                 self.emit(1, f"global {writable}")
         local_env = dict(env)
         for n, t in params:
             local_env[n] = t
+        saved_len_safe = set(self.len_safe)
+        saved_frozen = set(self.frozen_len)
+        self.len_safe = (self.len_safe - {n for n, _t in params}) | {n for n, t in params if t == "str"}
         self.in_helper = True
         saved_budget = self.budget
         self.budget = 4
@@ -972,6 +985,8 @@ class ProgGen:
             self.emit(1, f"return {self.expr(body_env, ret, 1, no_call=True)}")
         self.in_helper = False
         self.budget = saved_budget
+        self.len_safe = saved_len_safe
+        self.frozen_len = saved_frozen
         self.helpers.append(Helper(name, params, ret, pure))
         _ = protected
 
